@@ -14,7 +14,7 @@ def decode(string):
   return position
 
 def validate_decoded(obj):
-  if isinstance(obj, int):
+  if isinstance(obj, int) and not isinstance(obj, bool):
     if obj < 0:
       raise gfapy.ValueError(
         "{} is not a positive integer".format(obj))
